@@ -679,6 +679,27 @@ def run_shard(shard, tier, seed, acc) -> None:
                 continue
             if got != exp or back != txt:
                 acc.violate("utf8-form.bytes", ["utf8-form", i_], {"text": txt.encode("unicode_escape").decode(), "got": got.hex(), "expected": exp.hex(), "read_back_equal": back == txt})
+        # octet strings whose CONTENT is itself DER (an OCTET STRING, several, a SEQUENCE, nothing) under every kind of tag: the value is
+        # opaque, the reader hands back exactly the octets that were written
+        for ci, content in enumerate([b"\x04\x06secret", b"\x04\x00", b"\x04\x01a\x04\x01b", b"\x30\x03\x04\x01x", b"\x24\x03\x04\x01x", b"\x0c\x02hi", b"\x04\x81\x01z", b"\x05\x00", b""]):
+            for ti, (cls_, cons_, num_) in enumerate([(0, False, 4), (2, False, 0), (2, True, 0), (0, True, 4), (2, True, 31), (1, True, 5), (0, True, 16)]):
+                case = ["octet-content", ci, ti]
+                acc.ev()
+                acc.nt_counted()
+                tg = _tag(a, cls_, cons_, num_)
+                exp = der.tlv(cls_, cons_, num_, content)
+                try:
+                    w = a.ASN1Writer()
+                    w.write_octet_string(content, tag=tg)
+                    got = bytes(w.get_data())
+                    rd_ = a.ASN1Reader(exp + b"\x05\x00")
+                    back = bytes(rd_.read_octet_string(tag=tg))
+                    rest = bytes(rd_.get_remaining_data()) if hasattr(rd_, "get_remaining_data") else b"\x05\x00"
+                except Exception as e:  # noqa: BLE001
+                    acc.violate(f"octet-content.exc.{type(e).__name__}", case, {"exc": repr(e), "content": content.hex(), "tag": [cls_, cons_, num_]})
+                    continue
+                if got != exp or back != content or rest != b"\x05\x00":
+                    acc.violate("octet-content.value", case, {"content": content.hex(), "tag": [cls_, cons_, num_], "written": got.hex(), "expected": exp.hex(), "read_back": back.hex(), "rest": rest.hex()})
         acc.sample({"string": "utf8", "content_len": 65537})
     elif kind == "buffers":
         # the same DER decoded from every buffer type the reader accepts (bytes, bytearray, memoryviews of item format B / b / c, a ctypes
@@ -825,7 +846,7 @@ def replay(case, seed, acc) -> None:
                 del acc.violations[kk]
         acc.violation_count = sum(len(v) for v in acc.violations.values())
         return
-    elif k == "utf8-form":
+    elif k in ("utf8-form", "octet-content"):
         run_shard(["str"], "quick", seed, acc)
         for kk in list(acc.violations):
             acc.violations[kk] = [e for e in acc.violations[kk] if e["case"] == case]
